@@ -209,7 +209,13 @@ fn execute(case: &Case) -> CaseResult {
         }
         if redirected > 0 && matches!(op, Op::Continue | Op::ContinueSliced { .. }) {
             redirected -= 1;
-            let msgs: Vec<String> = h.log.borrow()[mark..].iter().filter_map(|e| match e { Ev::Handler { msg, .. } => Some(short(msg)), _ => None }).collect();
+            // (the constructor-time version warning is handed over by the first continue, whenever that is)
+            let all: Vec<String> = h.log.borrow()[mark..].iter().filter_map(|e| match e { Ev::Handler { msg, .. } => Some(short(msg)), _ => None }).collect();
+            version_deliveries += all.iter().filter(|m| m.contains("Version of ink")).count() as u32;
+            if version_deliveries > 1 {
+                fail!("message:duplicate", "version-mismatch warning", "delivered more than once", at.clone(), "once".to_string(), "again after a redirect".to_string());
+            }
+            let msgs: Vec<String> = all.into_iter().filter(|m| !m.contains("Version of ink")).collect();
             let line = h.log.borrow()[mark..].iter().find_map(|e| match e { Ev::Line { text, .. } => Some(text.clone()), _ => None }).unwrap_or_default();
             if !matches!(rh, Res::Ok(_)) || !line.starts_with("redirected line") {
                 fail!("message:stuck-after-redirect", "choose_path_string", "the redirected story does not play the lines it was sent to", at.clone(), "redirected line ...".to_string(), format!("{} {:?}", rh.brief(), line));
